@@ -45,9 +45,9 @@ Definition run (fields : list str) : list str :=
       else if tag_is tag [115;112;101;99] then
         match args with
         | s :: z :: _ =>
-            match parse_valid s with
+            match parse_vexpr s with
             | None => NOPARSE
-            | Some e => if expr_ok e then [str_of_bool (denote_b e (zd z))] else NOTOK
+            | Some e => if vexpr_ok e then [str_of_bool (denote_v_b e (zd z))] else NOTOK
             end
         | _ => BAD
         end
